@@ -521,8 +521,8 @@ func (s *Stub) asyncResponse(id int32, msg interface{}) error {
 // PhaseTwoResult is what a delivered phase-two request produced.
 type PhaseTwoResult struct {
 	MsgID      int32  `json:"msg_id"`
-	Class      string `json:"class"`    // hutil outcome class of the processor call: ok | panic | diverged
-	Replied    bool   `json:"replied"`  // a response was sent
+	Class      string `json:"class"`   // hutil outcome class of the processor call: ok | panic | diverged
+	Replied    bool   `json:"replied"` // a response was sent
 	ResultCode int    `json:"result_code"`
 	Status     int    `json:"status"` // branch status in the response
 	Xid        string `json:"xid"`
